@@ -439,18 +439,39 @@ def _check_merge_guards(ctx: Ctx, merge: FuncInfo, cfg_cls: ClassInfo) -> None:
     body = flow.loop_body_nodes(head)
     tests = [n for n in body if n.kind == "test"]
     # skip-guards: tests whose T-successor cannot reach the setattr within the iteration
+    # (or whose F-successor cannot: `if a and b and not c: setattr(...)` skips under `not (a and b and not c)`); the skip
+    # condition is kept as a formula over positive leaves: `x is not None` reads `not (x is None)`, `k not in s` reads `not (k in s)`
+    class _Pos(ast.NodeTransformer):
+        def visit_Compare(self, node: ast.Compare) -> ast.AST:
+            if len(node.ops) == 1 and isinstance(node.ops[0], (ast.IsNot, ast.NotIn)):
+                pos = ast.Compare(left=node.left, ops=[ast.Is() if isinstance(node.ops[0], ast.IsNot) else ast.In()], comparators=node.comparators)
+                return ast.copy_location(ast.UnaryOp(op=ast.Not(), operand=ast.copy_location(pos, node)), node)
+            return node
+
+    class _Guard:
+        def __init__(self, node: Node, cond: ast.AST) -> None:
+            self.node, self.ast = node, cond
+            self.kind, self.id, self.succ = node.kind, node.id, node.succ
+
     skip_guards = []
     for t in tests:
-        tsucc = [s for s, lab in t.succ if lab == "T"]
-        if tsucc and sn not in flow.cfg.reachable_from(tsucc[0], avoid={head}):
-            skip_guards.append(t)
+        for want_lab in ("T", "F"):
+            succ_ = [s for s, lab in t.succ if lab == want_lab]
+            if succ_ and sn not in flow.cfg.reachable_from(succ_[0], avoid={head}) and succ_[0] is not sn:
+                from ..inline import clone
+
+                cond = _Pos().visit(clone(t.ast))
+                if want_lab == "F":
+                    cond = ast.UnaryOp(op=ast.Not(), operand=cond)
+                ast.fix_missing_locations(cond)
+                skip_guards.append(_Guard(t, cond))
     ctx.note("merge_skip_guards", [norm(t.ast) for t in skip_guards])
 
     def find_leaf(pred) -> list[tuple[Node, ast.AST]]:
         out = []
         for t in skip_guards:
             for l in _leaves(t.ast):
-                if pred(l, t):
+                if pred(l, t.node):
                     out.append((t, l))
         return out
 
@@ -490,7 +511,7 @@ def _check_merge_guards(ctx: Ctx, merge: FuncInfo, cfg_cls: ClassInfo) -> None:
         for t in skip_guards:
             leaves = []
             for p in preds:
-                ls = [l for l in _leaves(t.ast) if p(l, t)]
+                ls = [l for l in _leaves(t.ast) if p(l, t.node)]
                 if ls:
                     leaves.append(ls[0])
             if len(leaves) == len(preds):
